@@ -555,6 +555,19 @@ Section EndToEnd.
 End EndToEnd.
 Arguments bufs_bytes {R A} bytes l.
 
+(* ---- several sinks in one process (two LogFiles, a LogFile next to an AsyncLogging, ...).  The models above
+   are per object; a process with two sinks is their PRODUCT - an operation on one sink is a step of that
+   sink's model and leaves the other sink's state alone - provided the objects share no state.  That proviso
+   is the regenerated fact Gen_C16.Sinks_share_no_state (no static data member, no non-local variable) ---- *)
+Section Product.
+  Variables (S1 S2 O1 O2 : Type) (step1 : S1 -> O1 -> S1) (step2 : S2 -> O2 -> S2).
+  Definition pair_step (s : S1 * S2) (o : O1 + O2) : S1 * S2 :=
+    match o with inl a => (step1 (fst s) a, snd s) | inr b => (fst s, step2 (snd s) b) end.
+  Definition pair_run (s : S1 * S2) (ops : list (O1 + O2)) : S1 * S2 := fold_left pair_step ops s.
+  Definition lefts (ops : list (O1 + O2)) : list O1 := flat_map (fun o => match o with inl a => [a] | inr _ => [] end) ops.
+  Definition rights (ops : list (O1 + O2)) : list O2 := flat_map (fun o => match o with inl _ => [] | inr b => [b] end) ops.
+End Product.
+
 (* ---- file names (LogFile::getLogFileName): basename ++ strftime(".%Y%m%d-%H%M%S.", gmtime(now)) ++
    hostname ++ ".<pid>.log"; the time stamp is an environment function [stamp] ---- *)
 Section Names.
